@@ -60,10 +60,13 @@ def emit(repo):
         bases = [b for b in cls.__mro__[1:] if b in (builtins.int, builtins.str)]
         if len(bases) != 1 or cls.__mro__[1] is not bases[0]:
             raise TranslatorError('variantClassMap[%r]: expected a direct subclass of int or str' % (k,))
-        if set(cls.__dict__) - {'__module__', '__doc__', 'dbusSignature', '__dict__', '__weakref__',
-                                '__qualname__', '__firstlineno__', '__static_attributes__'}:
-            raise TranslatorError('variantClassMap[%r]: class %s defines more than dbusSignature: %s'
-                                  % (k, cls.__name__, sorted(cls.__dict__)))
+        # the model takes `cls(v)` to be int(v) / str(v) with a class tag: nothing that changes construction
+        # or conversion may be defined (a __repr__, __slots__, docstring ... is fine)
+        changed = set(cls.__dict__) & {'__new__', '__init__', '__int__', '__index__', '__str__', '__bool__',
+                                       '__float__', '__eq__', '__hash__'}
+        if changed:
+            raise TranslatorError('variantClassMap[%r]: class %s redefines %s'
+                                  % (k, cls.__name__, sorted(changed)))
         tag = cls.__dict__.get('dbusSignature')
         if not isinstance(tag, str) or len(tag) != 1:
             raise TranslatorError('class %s: dbusSignature is not one character' % cls.__name__)
@@ -95,9 +98,9 @@ def emit(repo):
         raise TranslatorError('object-path class has too many ranges')
 
     # ---- the Properties interface of DBusObject
-    ifs = objects.DBusObject.dbusInterfaces
+    ifs = [i for i in objects.DBusObject.dbusInterfaces if i.name.endswith('.Properties')]
     if len(ifs) != 1:
-        raise TranslatorError('DBusObject.dbusInterfaces: expected exactly one interface')
+        raise TranslatorError('DBusObject.dbusInterfaces: expected exactly one interface called *.Properties')
     pi = ifs[0]
     if pi.properties:
         raise TranslatorError('the Properties interface declares properties itself')
